@@ -173,6 +173,21 @@ func writeReplay(kind string, c any, key, msg string) string {
 	return p
 }
 
+var inflightOn = os.Getenv("VERIF_INFLIGHT") != ""
+
+func inflightPath() string {
+	if p := os.Getenv("VERIF_INFLIGHT"); p != "" {
+		os.MkdirAll(filepath.Dir(p), 0o755)
+		return p
+	}
+	dir := os.Getenv("VERIF_REPLAY_DIR")
+	if dir == "" {
+		dir = filepath.Join(os.TempDir(), "verif-replays")
+	}
+	os.MkdirAll(dir, 0o755)
+	return filepath.Join(dir, fmt.Sprintf("%s-inflight-%s.json", cur.Property, shardID()))
+}
+
 // failer is implemented by *rapid.T and *testing.T.
 type failer interface {
 	Fatalf(format string, args ...any)
@@ -184,6 +199,16 @@ type failer interface {
 // skipped; anything else writes the replay file and fails.
 func judge[C any](t failer, kind string, c C, f func(C) error) {
 	t.Helper()
+	if inflightOn {
+		// parts whose cases may end the process (runtime fatal errors cannot be recovered): the case
+		// about to run is on disk, so that the driver can attribute a crash to it
+		if cb, err := json.Marshal(c); err == nil {
+			rf := replayFile{Property: cur.Property, Kind: kind, Key: "process-crash", Message: "in-flight case when the process ended with a fatal runtime error", Case: cb}
+			if b, err := json.Marshal(rf); err == nil {
+				os.WriteFile(inflightPath(), b, 0o644)
+			}
+		}
+	}
 	err := safely(func() error { return f(c) })
 	if err == nil {
 		return
